@@ -7,8 +7,9 @@ D=/var/tmp/kdev
 mkdir -p $D
 rsync -a --exclude target --exclude .git --exclude 'target-*' /repo/ $D/
 mkdir -p $D/src/verif_kani
-cp /verif/contracts/kani/*.rs $D/src/verif_kani/
-( echo '#![allow(unused, non_snake_case, static_mut_refs)]'; for f in /verif/contracts/kani/*.rs; do echo "pub mod $(basename $f .rs);"; done ) > $D/src/verif_kani/mod.rs
+rm -f $D/src/verif_kani/*.rs
+for f in /verif/contracts/kani/*.rs; do grep -q '^//@inject' $f || cp $f $D/src/verif_kani/; done
+( echo '#![allow(unused, non_snake_case, static_mut_refs)]'; for f in $D/src/verif_kani/*.rs; do [ "$(basename $f)" = mod.rs ] || echo "pub mod $(basename $f .rs);"; done ) > $D/src/verif_kani/mod.rs
 grep -q verif_kani $D/src/lib.rs || printf '\n#[cfg(kani)]\nmod verif_kani;\n' >> $D/src/lib.rs
 cd $D
 FE=""; [ "$FEAT" != "-" ] && FE="--features $FEAT"
